@@ -758,6 +758,10 @@ class MySQLParser(SQLParser):
     @_('window PARTITION_BY expr_list')
     def window(self, p):
         window = p.window
+        if 'partition' in window:
+            raise ParsingException('Duplicate PARTITION BY clause in window')
+        if 'order_by' in window:
+            raise ParsingException('PARTITION BY must go before ORDER BY in window')
         part_by = p.expr_list
         if not isinstance(part_by, list):
             part_by = [part_by]
@@ -768,6 +772,8 @@ class MySQLParser(SQLParser):
     @_('window ORDER_BY ordering_terms')
     def window(self, p):
         window = p.window
+        if 'order_by' in window:
+            raise ParsingException('Duplicate ORDER BY clause in window')
         window['order_by'] = p.ordering_terms
         return window
 
